@@ -192,6 +192,33 @@ def replay_stats(d):
     return st
 
 
+def apalache_inductive(module, wd):
+    """Init => IndInv and IndInv /\\ Next => IndInv' of a typed module with Apalache
+    (operators CInit, Init, IndInit, IndInv, Next). Unbounded in the number of steps."""
+    d = os.path.join(wd, "apalache-%d" % os.getpid())
+    os.makedirs(d, exist_ok=True)
+    shutil.copy(os.path.join(vlib.SPEC, module), d)
+    outs = []
+    ok = True
+    for init, length in (("Init", "0"), ("IndInit", "1")):
+        try:
+            p = subprocess.run(["apalache-mc", "check", "--cinit=CInit", "--init=" + init, "--inv=IndInv", "--length=" + length, module],
+                               cwd=d, stdout=subprocess.PIPE, stderr=subprocess.STDOUT, text=True, timeout=1200)
+            out = p.stdout
+        except subprocess.TimeoutExpired:
+            out = "timeout"
+        outs.append(out[-1500:])
+        ok = ok and "The outcome is: NoError" in out
+    shutil.rmtree(d, ignore_errors=True)
+    res = {"states": 0, "transitions": 0, "ok": ok, "engine": "apalache (inductive invariant, lengths 0 and 1)"}
+    if not ok:
+        res["error"] = "apalache did not discharge the inductive invariant of %s" % module
+        op = os.path.join(vlib.WORK, "model-apalache-%s.out" % module)
+        open(op, "w").write("\n=====\n".join(outs))
+        res["output"] = op
+    return res
+
+
 def model_check(fam, prop, tier, wd):
     """Runs the property's bounded configurations of Sunlight.tla. Results are
     cached per (spec sources, cfg): the model does not depend on the tree under
@@ -203,7 +230,7 @@ def model_check(fam, prop, tier, wd):
     for item in fam.model_cfg.get(prop, {}).get(tier, []):
         cfg, expect = item[0], item[1]
         spec = item[2] if len(item) > 2 else fam.model_spec
-        if not os.path.exists(os.path.join(vlib.SPEC, cfg)):
+        if not cfg.startswith("apalache:") and not os.path.exists(os.path.join(vlib.SPEC, cfg)):
             continue
         cpath = os.path.join(cdir, "%s-%s.json" % (cfg, spechash))
         if os.path.exists(cpath) and not os.environ.get("VERIF_NO_MODEL_CACHE"):
@@ -212,6 +239,13 @@ def model_check(fam, prop, tier, wd):
             runs.append(res)
             continue
         t0 = time.time()
+        if cfg.startswith("apalache:"):
+            res = apalache_inductive(cfg.split(":", 1)[1], wd)
+            res.update({"cfg": cfg, "expected": expect, "cached": False, "wall_s": round(time.time() - t0, 1)})
+            if res["ok"]:
+                json.dump(res, open(cpath, "w"))
+            runs.append(res)
+            continue
         rc, out, td = vlib.tlc(spec, cfg, wd, workers=vlib.NCPU, timeout=3 * 3600, xmx="6g")
         if rc < 0 or (rc != 0 and "OutOfMemoryError" in out):
             # killed (e.g. by the kernel's OOM killer on a busy machine): once more, smaller
